@@ -236,12 +236,16 @@ package main
 //@   ensures {at-most-one-offer-sent} calls(matchSnowflake) <= 1
 //
 // ProxyAnswers: the answer is routed by session id: the only send is on the answer channel of the entry registered
-// under the id decoded from the request, with the decoded answer.
+// under the id decoded from the request, with the decoded answer; the send can be abandoned (timer case, B1) when the
+// client has stopped waiting, and the proxy is then told that its client is gone.
+//@ ghost var ansSends0 int
 //@ func (i *IPC) ProxyAnswers(arg messages.Arg, response *[]byte) (err error)
 //@   props C02, C04, C14
-//@   flag concurrent nosafety
+//@   flag concurrent nosafety lifetime=After
 //@   requires i != nil && i.ctx != nil && response != nil
 //@   at call send assert {routed-by-session-id} ch == snowflake.answerChannel && value == answer && success
+//@   at call select ghost ansSends0 = sends(snowflake.answerChannel)
+//@   at call EncodeAnswerResponse assert {success-only-if-the-answer-was-handed-over} arg0 ==> snowflake != nil && sends(snowflake.answerChannel) == ansSends0 + 1
 //
 // ProxyPolls: a proxy whose relay pattern is not acceptable is never registered; the relay URL handed out is the one
 // configured for the offer's bridge fingerprint.
